@@ -544,10 +544,9 @@ impl G<'_> {
                 self.kinds.push("iup");
             }
             31 => {
-                if !self.blocked() {
-                    self.looped(1, FLIPPT);
-                    self.kinds.push("flippt");
-                }
+                // (when blocked by backward compatibility after both IUPs the arguments stay on the stack)
+                self.looped(1, FLIPPT);
+                self.kinds.push(if self.blocked() { "flippt-blocked" } else { "flippt" });
             }
             32 => {
                 let (a, b) = (self.pt(1), self.pt(1));
@@ -907,9 +906,40 @@ pub fn run_font(cfg: &Config, s: &mut Session, lib: &freetype::Library, f: &PFon
     }
 }
 
+/// directed programs (not random): situations the random generator avoids or rarely reaches
+fn directed(bc: bool) -> Vec<PGlyph> {
+    let mut v = vec![];
+    let sq = |d: i16| -> (Vec<(i16, i16, bool)>, Vec<usize>) {
+        (vec![(0, 0, true), (300 + d, 10, true), (320, 400 - d, true), (-20, 380, true), (100, 100, true), (200, 120, true), (190, 250, true), (90, 240, true)], vec![3, 7])
+    };
+    if bc {
+        // FLIPPT after both IUPs in backward compatibility mode is blocked; what happens to its arguments?
+        // `PUSH 5; PUSH 1; FLIPPT; PUSH 0 2 1 3; ISECT`: the point ISECT moves is the cell below its four
+        // line points: 1 if the blocked FLIPPT left its argument on the stack, 5 if it popped it
+        for k in [1, 2] {
+            let (pts, ends) = sq(7);
+            let mut ops: Vec<AOp> = vec![(IUP_X as u16, 0), (IUP_Y as u16, 0), (PUSH, 5)];
+            if k == 2 {
+                ops.extend([(PUSH, 2), (SLOOP as u16, 0), (PUSH, 6)]);
+            }
+            ops.extend([(PUSH, 1), (FLIPPT as u16, 0)]);
+            ops.extend([(PUSH, 0), (PUSH, 2), (PUSH, 1), (PUSH, 3), (ISECT as u16, 0)]);
+            v.push(PGlyph { pts, ends, ops, label: format!("directed:flippt-blocked-then-isect loop={k}"), cvt_used: false });
+        }
+    }
+    v
+}
+
 pub fn run(cfg: &Config, s: &mut Session) {
     let mut rng = Rng::new(cfg.seed ^ 0x9406);
     let lib = freetype::Library::init().unwrap();
+    for bc in [false, true] {
+        let f = PFont { upem: 1024, cvt: vec![0; N_CVT], glyphs: directed(bc) };
+        if !f.glyphs.is_empty() {
+            let mut rec = 0;
+            run_font(cfg, s, &lib, &f, &format!("c03_prog_directed_{}", if bc { "bc" } else { "mono" }), 16, if bc { Mode::Normal } else { Mode::Mono }, &mut rec);
+        }
+    }
     let n_glyphs = if cfg.thorough() { 30000 } else { 5000 };
     let mut recorded = 0usize;
     let cvt: Vec<i16> = (0..N_CVT as i32).map(|i| match i % 8 {
